@@ -178,7 +178,9 @@ Definition needs_cached_setattr (k : cls_spec) (has_cls : bool) : bool :=
                     (has_cls && negb (os_is_noop (a_on_setattr a)))) (filtered_attrs k).
 
 Definition hash_cache_setter (k : cls_spec) : setter :=
-  if k_frozen k then (if k_slots k then SetCached else SetInstDict) else SetPlain.
+  if k_frozen k then
+    (if k_slots k || is_slot_attr k HASH_CACHE then SetCached else SetInstDict)
+  else SetPlain.
 
 Definition params_of (k : cls_spec) (has_cls : bool) (kw : bool) : list (string * pdefault) :=
   flat_map (fun a => match snd (field_script k has_cls a) with
@@ -377,11 +379,16 @@ Definition plain_assign (k : cls_spec) (f : faults) (s : st) (n : string) (v : v
       end
   | HookedSetattr hooked =>
       if mem_str n hooked then
-        (* a hook would run: record it (the theorem says this never happens in __init__) *)
+        (* a hook would run: it is a callback like any other (the theorem
+           [no_hooks_during_init] says this never happens inside __init__) *)
         let ev := EvHook n HValidate v in
-        match obj_setattr k (s_inst s) n v with
-        | Ok i => Finished {| s_inst := i; s_trace := s_trace s ++ [ev] |}
+        match callback f s ev with
         | Raise e => Raised e (s_trace s ++ [ev])
+        | Ok s1 =>
+            match obj_setattr k (s_inst s1) n v with
+            | Ok i => Finished {| s_inst := i; s_trace := s_trace s1 |}
+            | Raise e => Raised e (s_trace s1)
+            end
         end
       else
         match obj_setattr k (s_inst s) n v with
